@@ -193,6 +193,10 @@ func (m *apiImpl) http1(f []string) string {
 	switch node {
 	case "own":
 		req.Header.Set(lhttp.HeaderNodeID, litefs.FormatNodeID(m.eng.store.ID()))
+	case "own-lower": // the node's own id in another legal spelling (ParseNodeID accepts any hexadecimal number)
+		req.Header.Set(lhttp.HeaderNodeID, strings.ToLower(litefs.FormatNodeID(m.eng.store.ID())))
+	case "own-pad":
+		req.Header.Set(lhttp.HeaderNodeID, "0"+litefs.FormatNodeID(m.eng.store.ID()))
 	case "other":
 		req.Header.Set(lhttp.HeaderNodeID, litefs.FormatNodeID(m.eng.store.ID()^0x5555))
 	case "bad":
@@ -302,6 +306,11 @@ func genAPI(c *Ctx) error {
 			for _, rq := range []string{
 				"POST /halt name=db&id=7 other -",
 				"POST /halt name=fresh&id=9 other -",
+				"DELETE /halt name=db&id=7 own -",
+				"DELETE /halt name=db&id=7 own-lower -",
+				"DELETE /halt name=db&id=7 own-pad -",
+				"POST /halt name=db&id=7 own-pad -",
+				"POST /tx name=db&lockID=7 own-lower ltx:" + enc(v.peekCommit()),
 				"DELETE /halt name=db&id=7 other -",
 				"POST /tx name=db&lockID=7 other ltx:" + enc(v.peekCommit()),
 				"POST /import name=db none " + img,
@@ -374,7 +383,7 @@ func genAPI(c *Ctx) error {
 					method = "POST"
 				}
 			}
-			node := pick(r, []string{"none", "other", "other", "own", "bad"})
+			node := pick(r, []string{"none", "other", "other", "own", "bad", "own-lower", "own-pad"})
 			name := pick(r, []string{"name=db", "name=db", "name=nosuch", "name=", "", "name=db&name=x", "name=%2e%2e%2fx", "name=a%00b"})
 			id := pick(r, []string{"id=7", "id=7", "id=", "", "id=abc", "id=0", "id=-1", "id=99999999999999999999", "lockID=7"})
 			nid := pick(r, []string{"nodeID=0000000000000001", "nodeID=", "", "nodeID=xyz", "nodeID=00000000000000000001"})
